@@ -13,11 +13,12 @@
   skip rule; an oversized new node is handed to the eviction callback and is not linked.
   Over ALL event orders (Proofs.PolicyLink.Reach; Proofs.PolicyBound): after evictNodes the sum of the weights of the tracked
   entries (= weightedSize, Props.C05) is within the maximum, or only zero-weight entries are left; evictNodes never evicts a
-  zero-weight entry.  The bound theorem assumes that the model's loop bound (4n+16 iterations; the code's loop is unbounded)
-  was not hit — the driver evaluates that flag on every evictNodes of every run and rejects the run if it is set.
+  zero-weight entry.  The model's loop bound (4n+16 iterations; the code's loop is unbounded) is proven never to be reached
+  (Proofs.PolicyFuel: a potential that every iteration decreases) — so the eviction loop of the model, like the code's,
+  ends only when the bound holds or the victim pointer has walked all three queues; the driver checks the flag as well.
 -/
 import OtterVerif.Impl.Policy
-import OtterVerif.Proofs.PolicyBound
+import OtterVerif.Proofs.PolicyFuel
 
 namespace OtterVerif.Props.C04
 open OtterVerif OtterVerif.Impl.Policy
@@ -117,16 +118,20 @@ theorem c05_add_not_alive_noop (p : Policy) (id : Nat) (h : (p.node id).st ≠ .
     (c04_weightedSize_is_sum), does not exceed `maximum` — or every entry still tracked has weight zero (such entries are
     never removed for size reasons and do not count toward the bound).  Holds in every state reachable by any order of
     add/update/delete events, reads, SetMaximum (including lowering the maximum) and earlier evictions. -/
-theorem c04_bound_after_evictNodes {S : List Nat} {p : Policy} (h : Reach S p) (hr : evictNodesRanOut p = false) :
+theorem c04_bound_after_evictNodes {S : List Nat} {p : Policy} (h : Reach S p) :
     (evictNodes p).weightedSize.toNat ≤ (evictNodes p).maximum.toNat ∨
     (∀ id, Linked (evictNodes p) id → ((evictNodes p).node id).weight = 0) := by
-  rcases bound_evictNodes (reach_inv h) hr with hb | hz
+  rcases bound_evictNodes (reach_inv h) (evictNodes_never_runs_out (reach_inv h)) with hb | hz
   · left
     simp [BitVec.ult] at hb
     exact hb
   · right
     intro id hl
     exact hz id ((linked_iff_all _ id).mp hl)
+
+/-- the eviction loop terminates by itself: the model's loop bound is never what ends it -/
+theorem c04_eviction_loop_terminates {S : List Nat} {p : Policy} (h : Reach S p) : evictNodesRanOut p = false :=
+  evictNodes_never_runs_out (reach_inv h)
 
 /-- the counter the bound is about is the sum of the weights of the tracked entries, before and after the eviction -/
 theorem c04_weightedSize_is_sum {S : List Nat} {p : Policy} (h : Reach S p) :
